@@ -181,6 +181,12 @@ class VC:
     def ufun(self, name, argsorts, ressort):
         if name not in self.ufuns:
             self.ufuns[name] = '(declare-fun %s (%s) %s)' % (sym(name), ' '.join(self.ssort(a) for a in argsorts), self.ssort(ressort))
+            if name == 'gs.lt':
+                # Go's string order (bytewise lexicographic) is a strict total order: part of the trusted string theory
+                f, S = sym(name), self.ssort('Str')
+                self.quant_axioms.append('(forall ((a %s)) (! (not (%s a a)) :pattern ((%s a a))))' % (S, f, f))
+                self.quant_axioms.append('(forall ((a %s) (b %s) (c %s)) (! (=> (and (%s a b) (%s b c)) (%s a c)) :pattern ((%s a b) (%s b c))))' % (S, S, S, f, f, f, f, f))
+                self.quant_axioms.append('(forall ((a %s) (b %s)) (! (or (%s a b) (= a b) (%s b a)) :pattern ((%s a b))))' % (S, S, f, f, f))
         return sym(name)
 
     def heap_base(self, name, sort, epoch):
